@@ -108,7 +108,12 @@ Definition step2 (w : world2) (m : nat) (o : op2) : world2 * res value :=
       | (Err e, s') => (w <| w_mgrs ::= <[m := s' <| tape := [] |>]> |>, Err e)
       end
   | None =>
-      let '(r, s') := run_op2 (w_mgrs w) o s in
+      let '(r, s') := match o with
+                      | O1 (OCopy src u) =>
+                          if decide (src = m) then (Ok (VZ u), s)
+                          else run_op2 (w_mgrs w) o s
+                      | _ => run_op2 (w_mgrs w) o s
+                      end in
       let s' := match o with O1 (OTape _) => s' | _ => s' <| tape := [] |> end in
       (w <| w_mgrs ::= <[m := s']> |>, r)
   end.
